@@ -86,8 +86,16 @@ pub fn h_tokens() {
     while i < k {
         match sym::choose("tok", 6) {
             0 => s.push('-'),
-            1 => s.push_str("nb"),
-            2 => s.push_str(&sym::any_str("d", "hex:30-39", 1, 18)),
+            1 => {
+                // a revision token: "nb" followed by 0..3 symbolic digits (or up to 18 in one variant)
+                s.push_str("nb");
+                if sym::choose("longrev", 2) == 1 {
+                    s.push_str(&sym::any_str("d", "hex:30-39", 18, 18));
+                } else {
+                    s.push_str(&sym::any_str("d", "hex:30-39", 0, 2));
+                }
+            }
+            2 => s.push_str(&sym::any_str("d", "hex:30-39", 1, 2)),
             3 => s.push('.'),
             4 => s.push_str(&sym::any_str("l", "set:anbx", 1, 1)),
             _ => s.push_str(&sym::any_str("u", "utf8", 1, 1)),
